@@ -52,7 +52,7 @@ func (in *Inliner) Fn(fn *core.Fn) *core.Fn {
 	if v, ok := in.memo[fn.Decl]; ok {
 		return v
 	}
-	cl := &cloner{in: in, info: fn.Pkg.TypesInfo, pkg: fn.Pkg.Types, subst: map[types.Object]ast.Expr{}, stack: []*types.Func{fn.Obj}, outer: fn.Decl.Body}
+	cl := &cloner{in: in, info: fn.Pkg.TypesInfo, pkg: fn.Pkg.Types, subst: map[types.Object]ast.Expr{}, stack: []*types.Func{fn.Obj}, outer: fn.Decl.Body, root: fn.Decl.Body}
 	body := cl.node(fn.Decl.Body).(*ast.BlockStmt)
 	decl := *fn.Decl
 	decl.Body = body
@@ -87,7 +87,9 @@ type cloner struct {
 	stack []*types.Func
 	ret   *retPolicy // nil: returns are copied unchanged
 	inLit int
-	outer ast.Node // body of the function whose view is being built (for single-assignment tests)
+	outer ast.Node       // body of the function (or helper) being copied (for single-assignment tests)
+	root  ast.Node       // body of the function in which closure variables are looked up
+	lits  []*ast.FuncLit // closures being inlined (recursion guard)
 }
 
 var (
@@ -299,6 +301,14 @@ func (cl *cloner) stmt(s ast.Stmt, next *ast.IfStmt) (out []ast.Stmt, usedNext b
 		if th != nil {
 			return cl.inline(tail, th, &retPolicy{tail: true}, nil), false
 		}
+	case *ast.LabeledStmt:
+		if inner, used := cl.stmt(x.Stmt, next); inner != nil {
+			if len(inner) == 0 {
+				inner = []ast.Stmt{&ast.EmptyStmt{Semicolon: x.Stmt.Pos(), Implicit: true}}
+			}
+			lab := &ast.LabeledStmt{Label: ast.NewIdent(x.Label.Name), Colon: x.Colon, Stmt: inner[0]}
+			return append([]ast.Stmt{lab}, inner[1:]...), used
+		}
 	case *ast.ExprStmt:
 		if call, ok := ast.Unparen(x.X).(*ast.CallExpr); ok {
 			if h := cl.inlinable(call); h != nil {
@@ -306,6 +316,9 @@ func (cl *cloner) stmt(s ast.Stmt, next *ast.IfStmt) (out []ast.Stmt, usedNext b
 			}
 		}
 	case *ast.AssignStmt:
+		if cl.dropClosureDef(x) {
+			return []ast.Stmt{}, false
+		}
 		if call, h := cl.callAssign(x); h != nil {
 			return cl.inlineAssign(x, call, h, next)
 		}
@@ -345,6 +358,9 @@ func (cl *cloner) callAssign(as *ast.AssignStmt) (*ast.CallExpr, *core.Fn) {
 
 // inlinable resolves the helper a call would be replaced by, or nil.
 func (cl *cloner) inlinable(call *ast.CallExpr) *core.Fn {
+	if h := cl.closure(call); h != nil {
+		return h
+	}
 	f := core.CalleeFunc(cl.info, call)
 	if f == nil || f.Pkg() != cl.pkg || len(cl.stack) > cl.in.MaxDepth || cl.in.Keep != nil && cl.in.Keep(f) {
 		return nil
@@ -379,6 +395,86 @@ func (cl *cloner) inlinable(call *ast.CallExpr) *core.Fn {
 		return nil
 	}
 	return h
+}
+
+// closure resolves a call of a function literal bound once to a local
+// (`step := func(..) {..}; step(..)`) to a pseudo helper made of the literal.
+func (cl *cloner) closure(call *ast.CallExpr) *core.Fn {
+	id, ok := ast.Unparen(call.Fun).(*ast.Ident)
+	if !ok || len(cl.stack)+len(cl.lits) > cl.in.MaxDepth || call.Ellipsis.IsValid() {
+		return nil
+	}
+	v, isVar := cl.info.Uses[id].(*types.Var)
+	if !isVar || v.IsField() {
+		return nil
+	}
+	lit, isLit := ast.Unparen(ValueOf(cl.info, cl.root, id)).(*ast.FuncLit)
+	if !isLit {
+		return nil
+	}
+	for _, l := range cl.lits {
+		if l == lit {
+			return nil
+		}
+	}
+	n := 0
+	for _, f := range lit.Type.Params.List {
+		if _, variadic := f.Type.(*ast.Ellipsis); variadic {
+			return nil
+		}
+		n += max(len(f.Names), 1)
+	}
+	bad := n != len(call.Args)
+	core.Inspect(lit.Body, func(m ast.Node) bool {
+		if _, isDefer := m.(*ast.DeferStmt); isDefer {
+			bad = true
+		}
+		return !bad
+	})
+	if bad {
+		return nil
+	}
+	return &core.Fn{Decl: &ast.FuncDecl{Name: id, Type: lit.Type, Body: lit.Body}}
+}
+
+// dropClosureDef: `f := func(..){..}` can be omitted from the view when every use of f is a call that gets inlined.
+func (cl *cloner) dropClosureDef(as *ast.AssignStmt) bool {
+	if as.Tok != token.DEFINE || len(as.Lhs) != 1 || len(as.Rhs) != 1 {
+		return false
+	}
+	id, ok := as.Lhs[0].(*ast.Ident)
+	if _, isLit := ast.Unparen(as.Rhs[0]).(*ast.FuncLit); !ok || !isLit {
+		return false
+	}
+	obj := cl.info.Defs[id]
+	if obj == nil || Assignments(cl.info, cl.root, obj) != 1 {
+		return false
+	}
+	all, uses := true, 0
+	core.InspectAll(cl.root, func(m ast.Node) bool {
+		use, isID := m.(*ast.Ident)
+		if !isID || cl.info.Uses[use] != obj {
+			return true
+		}
+		uses++
+		path := core.PathTo(cl.root, use)
+		ok := false
+		if k := len(path); k >= 3 {
+			if call, isCall := path[k-2].(*ast.CallExpr); isCall && ast.Unparen(call.Fun) == ast.Expr(use) && cl.closure(call) != nil {
+				switch st := path[k-3].(type) {
+				case *ast.ExprStmt:
+					ok = true
+				case *ast.AssignStmt:
+					ok = len(st.Rhs) == 1 && (st.Tok == token.DEFINE || st.Tok == token.ASSIGN)
+				case *ast.ReturnStmt:
+					ok = len(st.Results) == 1
+				}
+			}
+		}
+		all = all && ok
+		return true
+	})
+	return all && uses > 0
 }
 
 // inlineAssign handles `lhs := h(args)`, possibly followed by `if err != nil { A }`.
@@ -453,7 +549,19 @@ func returnsOf(body *ast.BlockStmt) []*ast.ReturnStmt {
 
 // inline copies the body of h with its parameters bound to the call's arguments.
 func (cl *cloner) inline(call *ast.CallExpr, h *core.Fn, pol *retPolicy, afterLast func(*ast.ReturnStmt)) []ast.Stmt {
-	child := &cloner{in: cl.in, info: cl.info, pkg: cl.pkg, subst: map[types.Object]ast.Expr{}, stack: append(append([]*types.Func{}, cl.stack...), h.Obj), outer: h.Decl.Body}
+	child := &cloner{in: cl.in, info: cl.info, pkg: cl.pkg, subst: map[types.Object]ast.Expr{}, stack: append(append([]*types.Func{}, cl.stack...), h.Obj), outer: h.Decl.Body, root: h.Decl.Body, lits: cl.lits}
+	if h.Obj == nil {
+		// a closure shares the scope of the function it is defined in: aliases stay valid, closure
+		// variables are still looked up in that function
+		for o, e := range cl.subst {
+			child.subst[o] = e
+		}
+		child.root = cl.root
+		child.outer = cl.outer
+		if lit, ok := ast.Unparen(ValueOf(cl.info, cl.root, h.Decl.Name)).(*ast.FuncLit); ok {
+			child.lits = append(append([]*ast.FuncLit{}, cl.lits...), lit)
+		}
+	}
 	var pre []ast.Stmt
 	bind := func(name *ast.Ident, arg ast.Expr) {
 		if name == nil || name.Name == "_" {
